@@ -9,6 +9,7 @@ import (
 	"fmt"
 	"sort"
 	"strings"
+	"time"
 
 	"github.com/sourcenetwork/immutable"
 	"github.com/sourcenetwork/lens/host-go/config/model"
@@ -40,6 +41,7 @@ type Step struct {
 	B   int             `json:"b"`
 	Res string          `json:"res"`
 	Obs json.RawMessage `json:"obs"`
+	Sub json.RawMessage `json:"sub"`
 }
 
 const policy = `
@@ -80,13 +82,16 @@ type Violation struct {
 }
 
 type Result struct {
-	Behaviours  int            `json:"behaviours"`
-	Steps       int            `json:"steps"`
-	Requests    int            `json:"requests"`
-	ByKind      map[string]int `json:"requests_by_kind"`
-	Refused     int            `json:"refused_attempts"`
-	Violations  []Violation    `json:"violations"`
-	HarnessErrs []string       `json:"harness_errors"`
+	Behaviours    int            `json:"behaviours"`
+	Steps         int            `json:"steps"`
+	Requests      int            `json:"requests"`
+	ByKind        map[string]int `json:"requests_by_kind"`
+	Refused       int            `json:"refused_attempts"`
+	SubBehaviours int            `json:"subscription_behaviours"`
+	SubResults    int            `json:"subscription_results"`
+	SubSilences   int            `json:"subscription_silences_checked"`
+	Violations    []Violation    `json:"violations"`
+	HarnessErrs   []string       `json:"harness_errors"`
 }
 
 type Runner struct {
@@ -97,6 +102,8 @@ type Runner struct {
 	cur    []Step
 	step   int
 	Full   bool // issue every request kind at every step
+	// SubEvery: every k-th behaviour runs with a GraphQL subscription open for every requester (0: never)
+	SubEvery int
 }
 
 func NewRunner(ctx context.Context, actors int) (*Runner, error) {
@@ -169,6 +176,29 @@ func (r *Runner) Replay(bi int, steps []Step) {
 	docIDs := map[int]string{}
 	createCid := map[int]string{}
 	npatch := 0
+	// the subscription route: one subscription per requester, opened before the history
+	subs := map[int]<-chan client.GQLResult{}
+	if r.SubEvery > 0 && r.Res.Behaviours%r.SubEvery == 0 {
+		r.Res.SubBehaviours++
+		for a := range r.idents {
+			sctx, cancel := context.WithCancel(r.as(a))
+			defer cancel()
+			res := n.DB.ExecRequest(sctx, `subscription { T { k v } }`)
+			if len(res.GQL.Errors) > 0 || res.Subscription == nil {
+				r.Res.HarnessErrs = append(r.Res.HarnessErrs, fmt.Sprintf("subscription of requester %d: %v", a, res.GQL.Errors))
+				return
+			}
+			subs[a] = res.Subscription
+		}
+		sctx, cancel := context.WithCancel(r.ctx)
+		defer cancel()
+		res := n.DB.ExecRequest(sctx, `subscription { T { k v } }`)
+		if len(res.GQL.Errors) > 0 || res.Subscription == nil {
+			r.Res.HarnessErrs = append(r.Res.HarnessErrs, fmt.Sprintf("subscription of the anonymous requester: %v", res.GQL.Errors))
+			return
+		}
+		subs[0] = res.Subscription
+	}
 	for si, st := range steps {
 		r.Res.Steps++
 		ctx := r.as(st.A)
@@ -258,6 +288,9 @@ func (r *Runner) Replay(bi int, steps []Step) {
 		if st.Res == "refused" {
 			r.Res.Refused++
 		}
+		if len(subs) > 0 && !r.checkSubs(bi, si, &st, subs) {
+			return
+		}
 		// every requester, every request kind
 		var all map[string]Obs
 		if err := json.Unmarshal(st.Obs, &all); err != nil {
@@ -281,6 +314,69 @@ func (r *Runner) Replay(bi int, steps []Step) {
 			return
 		}
 	}
+}
+
+// checkSubs reads what the step delivered to each requester's subscription: exactly the result the specification owes it
+// (document and value), or nothing.
+func (r *Runner) checkSubs(bi, si int, st *Step, subs map[int]<-chan client.GQLResult) bool {
+	want := map[int][]int{}
+	var byName map[string][]int
+	if err := json.Unmarshal(st.Sub, &byName); err != nil {
+		var arr [][]int // a function over 0..N renders as an array
+		if err2 := json.Unmarshal(st.Sub, &arr); err2 != nil {
+			r.Res.HarnessErrs = append(r.Res.HarnessErrs, "sub: "+err.Error())
+			return false
+		}
+		for i, x := range arr {
+			want[i] = x
+		}
+	} else {
+		for k, x := range byName {
+			var a int
+			fmt.Sscan(k, &a)
+			want[a] = x
+		}
+	}
+	for a, ch := range subs {
+		w := want[a]
+		if len(w) == 2 {
+			select {
+			case res, ok := <-ch:
+				if !ok {
+					r.violate(bi, si, "subscription-closed", "the subscription of requester %d was closed", a)
+					return false
+				}
+				r.Res.SubResults++
+				norm, _ := cluster.Normalize(res.Data)
+				rows := cluster.Rows(norm, "T")
+				k, v := -1, -1
+				if len(rows) == 1 {
+					k, _ = toInt(rows[0]["k"])
+					v, _ = toInt(rows[0]["v"])
+				}
+				if len(res.Errors) > 0 || len(rows) != 1 || k != w[0] || v != w[1] {
+					r.violate(bi, si, "subscription-result", "after %s by requester %d the subscription of requester %d delivered %v (errors %v); the specification owes it document %d with v=%d", st.Op, st.A, a, norm, res.Errors, w[0], w[1])
+					return false
+				}
+			case <-time.After(5 * time.Second):
+				r.violate(bi, si, "subscription-missing", "after %s of document %d by requester %d, requester %d, who may read the document, received nothing on its subscription within 5s", st.Op, st.D, st.A, a)
+				return false
+			}
+			continue
+		}
+		// nothing is owed: the subscription must stay silent (a late leak is caught by the next step's read)
+		r.Res.SubSilences++
+		select {
+		case res, ok := <-ch:
+			if ok {
+				norm, _ := cluster.Normalize(res.Data)
+				r.violate(bi, si, "subscription-leak", "after %s of document %d by requester %d (result %s) the subscription of requester %d delivered %v although nothing readable for it was committed", st.Op, st.D, st.A, st.Res, a, norm)
+				return false
+			}
+		case <-time.After(120 * time.Millisecond):
+		}
+	}
+	return true
 }
 
 func outcome(err error, rows int) string {
